@@ -37,8 +37,10 @@ CANCEL_KINDS = ("CancelledError", "KeyboardInterrupt", "SystemExit")
 
 TRACKED = {
     "action", "decision", "last_stop_reason", "started", "end_called", "last_cause", "abort_if",
-    "stop_reason", "cause", "ok",
+    "stop_reason", "cause", "ok", "context",
 }
+
+SLEEP_DECISIONS = [("e", "SleepDecision", "SLEEP"), ("e", "SleepDecision", "DEFER"), ("e", "SleepDecision", "ABORT")]
 
 
 class RunnerClient(Client):
@@ -70,6 +72,12 @@ class RunnerClient(Client):
             ks = tuple(self.fault.get("operation", ()))
             return ks + (("TimeoutError",) if "TimeoutError" not in ks and ks else ())
         return ()
+
+    def callback_results(self, category: str, ev: Event) -> list | None:
+        # typed domain: a sleep handler returns a SleepDecision member
+        if category == "sleep_handler":
+            return list(SLEEP_DECISIONS)
+        return None
 
     def track_attr(self, leaf: str) -> bool:
         return leaf in self.tracked
